@@ -109,9 +109,15 @@ func (st *StateDB) RemoveValidator(mainAddress common.Address) bool {
 		return false
 	}
 	val := value.(*Validator)
+	if val.deleted {
+		// already removed: nothing to take out of the statistics a second time
+		return false
+	}
 	// journal a copy taken before the live object is marked deleted, so that a revert restores a usable record
 	st.validatorJournal.append(validatorDeleteChange{address: &mainAddress, oldVal: val.PartialCopy()})
 	val.deleted = true
+	// the index lists the existing validators only (the revert puts the address back through setValidator)
+	st.validatorIndex.Delete(mainAddress)
 
 	st.decrValidatorsStat(val)
 	return true
@@ -357,10 +363,14 @@ func (st *StateDB) updateValidator(val *Validator) {
 }
 
 func (st *StateDB) deleteValidator(val *Validator) {
+	// RemoveValidator has already taken a removed validator out of the statistics
+	counted := !val.deleted
 	val.deleted = true
 	st.deleteStakingData(val.MainAddress(), validatorFlag)
 	st.validatorIndex.Delete(val.MainAddress())
-	st.decrValidatorsStat(val)
+	if counted {
+		st.decrValidatorsStat(val)
+	}
 }
 
 func (st *StateDB) getValidator(mainAddress common.Address) *Validator {
